@@ -214,6 +214,14 @@ void on_terminate()
 
 CurState g_cur;
 
+void write_stats_public() { write_stats(); }
+Sec *find_section(std::string const &name)
+{
+  for (Sec &s : g().sections)
+    if (s.name == name) return &s;
+  return nullptr;
+}
+
 Opts &opts() { return g().opts; }
 
 Sec &add_section(
@@ -456,4 +464,60 @@ int harness_main(int argc, char **argv)
 }
 }
 
+#ifndef VERIF_FUZZ
 int main(int argc, char **argv) { return verif::harness_main(argc, argv); }
+#else
+// libFuzzer flavour (E3): the bytes are read as little-endian 32-bit words = the same integer case
+// that the random engine generates; the section named by VERIF_FUZZ_SECTION is evaluated through
+// its one() entry, so the semantic oracle (not just crash-waiting) decides. A failing case traps,
+// so that libFuzzer keeps the input as a crash artefact.
+namespace verif
+{
+bool run_random(Sec &, RcParams, RcParams) { return true; }
+}
+namespace
+{
+verif::Sec *g_fuzz_sec = nullptr;
+void fuzz_atexit() { verif::write_stats_public(); }
+}
+extern "C" int LLVMFuzzerInitialize(int *, char ***)
+{
+  char const *name = std::getenv("VERIF_FUZZ_SECTION");
+  char const *out = std::getenv("VERIF_FUZZ_OUT");
+  if (out != nullptr) verif::opts().out = out;
+  if (char const *tier = std::getenv("VERIF_TIER")) verif::opts().tier = tier;
+  g_fuzz_sec = verif::find_section(name != nullptr ? name : "");
+  if (g_fuzz_sec == nullptr)
+  {
+    std::fprintf(stderr, "VERIF_FUZZ_SECTION does not name a section\n");
+    std::_Exit(2);
+  }
+  g_fuzz_sec->ran = true;
+  g_fuzz_sec->kind = verif::Kind::fuzz;
+  std::atexit(fuzz_atexit);
+  return 0;
+}
+extern "C" int LLVMFuzzerTestOneInput(std::uint8_t const *data, std::size_t size)
+{
+  verif::Ints ints;
+  std::size_t const n = size / 4 < verif::cur_max ? size / 4 : verif::cur_max;
+  ints.reserve(n);
+  for (std::size_t i = 0; i < n; ++i)
+  {
+    std::uint32_t w;
+    std::memcpy(&w, data + 4 * i, 4);
+    ints.push_back(static_cast<verif::i64>(w));
+  }
+  verif::g_cur.sec = g_fuzz_sec;
+  verif::cur_vec(ints);
+  verif::reset_case_flag();
+  g_fuzz_sec->one(ints);
+  if (verif::failed_in_current_case())
+  {
+    verif::write_stats_public();
+    __builtin_trap();
+  }
+  g_fuzz_sec->complete = true;
+  return 0;
+}
+#endif
